@@ -230,6 +230,8 @@ def run_c03(ck):
     quick = ck.tier == "quick"
     rng = random.Random(ck.seed)
     lexer_family(ck, quick, random.Random(ck.seed + 303))
+    from . import syntax
+    syntax.syntax_family(ck, quick, ck.seed + 404)
     # 1. the design: no path of the modelled code reports and still delivers
     r = common.tlc("MC_Driver", "MC_Driver_current.cfg", ck.wd, workers=4, timeout=600)
     ck.add_tlc(r)
